@@ -805,6 +805,11 @@ func (h *packetHandlerMap) AddWithConnID(clientDestConnID, newConnID protocol.Co
 func (h *packetHandlerMap) Remove(id protocol.ConnectionID) {
 	h.mutex.Lock()
 	delete(h.handlers, id)
+	if len(h.handlers) == 0 {
+		// a closed single-use transport stops listening once its last connection is gone
+		t := (*Transport)(h)
+		t.maybeStopListening()
+	}
 	h.mutex.Unlock()
 	h.logger.Debugf("Removing connection ID %s.", id)
 }
